@@ -424,6 +424,14 @@ func cmdC12(tier string, seed int64, out, statsOut, replay string) {
 				runC12Case(w, fmt.Sprintf("many-files-%d-p%d", ci, p), concDesc{YAML: marshalConfig(&manyCfg), Files: gen.files, Mode: "independent",
 					Formats: []string{"archlinux", "archlinux", "archlinux", "deb", "ipk", "archlinux", "deb", "ipk"}, Procs: p, Rounds: 1, Seed: seed + int64(ci)}, st)
 			}
+			// the configuration without a maintainer: the two formats that print a notice about it, several of each at once,
+			// in three fresh processes (whatever the first notice of a process sets up is set up by all of them together)
+			if ci%4 == 1 {
+				for k := 0; k < 3; k++ {
+					runC12Case(w, fmt.Sprintf("notice-%d-p%d-%d", ci, p, k), concDesc{YAML: doc, Files: gen.files, Mode: "independent",
+						Formats: []string{"deb", "ipk", "deb", "ipk", "deb", "ipk", "deb", "ipk"}, Procs: p, Rounds: 1, Seed: seed + int64(ci)}, st)
+				}
+			}
 			f := allFormats[(ci+p)%len(allFormats)]
 			runC12Case(w, fmt.Sprintf("same-%d-p%d-%s", ci, p, f), concDesc{YAML: doc, Files: gen.files, Mode: "independent", Formats: []string{f, f, f, f, f, f}, Procs: p, Rounds: rounds, Seed: seed + int64(ci)}, st)
 		}
